@@ -653,7 +653,7 @@ func (st *runState) finishWith(ri *simcheck.RunInfo, sim *simrt.Sim, sys *System
 			continue // any status is acceptable for a hostile body; its rows are not predictable
 		}
 		if !ok2xx {
-			if fired == 0 && !r.Hostile && len(st.s.Faults) == 0 {
+			if fired == 0 && !r.Hostile && len(st.s.Faults) == 0 && st.s.Cfg.RetryAttempts > 0 {
 				add("C03", "well-formed-body-rejected", fmt.Sprintf("well-formed %s body answered %d without any fault", r.Op.Proto, r.Status),
 					fmt.Sprintf("req%d (%s) streams=%s got status %d in a fault-free run", r.ID, r.Op.Proto, describeStreams(r.Op), r.Status))
 			}
